@@ -2,7 +2,9 @@ SPECIFICATION Spec
 CONSTANTS
   MaxSources = 2
   MaxLen = 3
+  BlanksOnce = TRUE
 INVARIANT Reachable
 INVARIANT Distinct
 INVARIANT Skeleton
+INVARIANT GidIsFinal
 INVARIANT Export
